@@ -159,6 +159,15 @@ def one_case(args):
         if rng.random() < 0.7:
             # one of them is also written, under the same name, in the main output directory
             beh['both'] = [rng.choice(beh['sibling'])]
+    elif i % 16 == 7 or (beh['files'] and rng.random() < 0.2):
+        # one output goes under $TMPDIR (case 7 of every 16: always, with a single iteration)
+        if not beh['files']:
+            beh['files'] = {'out.txt': (True, b'alpha\nbeta\n')}
+        beh['tmp'] = [sorted(beh['files'])[0]]
+    if not corpus and i % 16 == 5:
+        # a one-line dump holding a great many of today's dates (a minified export)
+        today = datetime.date.today().isoformat()
+        beh['out'] = ['{' + ','.join('"d%d":"%s"' % (j, today) for j in range(1500)) + '}', 'done']
     command = G.gen_command(rng)
     G.write_command(d, beh)
     script = rng.choice(['test_cmd.py', 'test_cmd.py', 'test_my-cmd.py', 'cmd2', 'test_9x.py'])
@@ -173,6 +182,8 @@ def one_case(args):
     if beh['code'] != 0:
         flags.append(rng.choice(['-Z', '--non-zero-exit']))
     it = 2 if corpus else rng.choice([1, 2, 2, 2, 3])
+    if i % 16 == 7:
+        it = 1
     if it != 2 or rng.random() < 0.3:
         flags += ['-n', str(it)]
     check_stdout = rng.random() > 0.15
@@ -195,7 +206,7 @@ def one_case(args):
             f.write('not produced by the command\n')
     res = {'i': i, 'dir': d, 'behaviour': {k: (v if k != 'files' else {n: [t, len(b)] for n, (t, b) in v.items()}) for k, v in beh.items()},
            'script': script, 'flags': flags, 'refs': refs, 'problems': [], 'regen': regen, 'command': command,
-           'sibling': beh.get('sibling', []), 'both': beh.get('both', [])}
+           'sibling': beh.get('sibling', []), 'both': beh.get('both', []), 'tmp': beh.get('tmp', [])}
     if regen:
         rc0, out0 = G.run_gentest(d, script, flags, refs, command)
         if rc0 != 0:
@@ -216,7 +227,7 @@ def one_case(args):
         res['problems'].append('no test script %s was written; generation said: %s' % (name, out[-400:]))
         return res
     try:
-        py_compile.compile(spath, doraise=True, cfile=os.path.join(d, '.tmp', 'x.pyc'))
+        py_compile.compile(spath, doraise=True, cfile=os.path.join(G.tmp_for(d), 'x.pyc'))
     except Exception as e:
         res['problems'].append('the generated script is not valid Python: %s' % str(e)[-300:])
         return res
@@ -233,6 +244,8 @@ def one_case(args):
         elif after[p] != h and not produced:
             res['problems'].append('generation altered %s which existed before' % p)
     for n, (t, data) in beh['files'].items():
+        if n in beh.get('tmp', ()):
+            continue
         p = os.path.join(sibling if n in beh.get('sibling', ()) else os.path.join(d, 'outdir'), n)
         if not os.path.exists(p) or open(p, 'rb').read() != data:
             res['problems'].append("the command's own output file outdir/%s is missing or altered after generation" % n)
@@ -263,10 +276,12 @@ def run(ctx):
     results = G.pmap(one_case, [(i, s, base) for i, s in enumerate(seeds)])
     payloads, keep = [], []
     for r in results:
-        case = {k: r[k] for k in ('behaviour', 'script', 'flags', 'refs', 'regen', 'command', 'sibling', 'both')}
+        case = {k: r[k] for k in ('behaviour', 'script', 'flags', 'refs', 'regen', 'command', 'sibling', 'both', 'tmp')}
         ctx.count(repr(case), True)
         ctx.bump('flags.%s' % ' '.join(r['flags']))
         ctx.bump('nfiles.%d' % len(r['behaviour']['files']))
+        if r.get('tmp'):
+            ctx.bump('file_under_TMPDIR')
         for p in r['problems']:
             ctx.fail(case, p)
         if 'results' in r and not r['problems']:
